@@ -35,7 +35,7 @@
 //   - the happens-before state cache is on for the large scenarios; because nbio's shutdown flags
 //     and descriptor table are read without synchronisation (and the overlay has no Touch points
 //     for them) every scenario family is additionally run with the cache off at P<=1, and the small
-//     ones at the full bound (see "nocache" in the scenario name).
+//     ones at the full bound (scenario names "core/nocache ...", "http/nocache ...").
 package main
 
 import (
@@ -454,11 +454,11 @@ type ccfg struct {
 }
 
 func (c ccfg) name() string {
-	s := fmt.Sprintf("core %s np=%d nl=%d read=%s hist=%s racer=%s %s P=%d", c.mode, c.np, c.nl, c.read, strings.Join(c.hist, "+"), c.racer, c.stop, c.p)
+	eng := "core"
 	if c.noc {
-		s += " nocache"
+		eng = "core/nocache" // (not a suffix: -only with a cached scenario's name must not select this one too)
 	}
-	return s
+	return fmt.Sprintf("%s %s np=%d nl=%d read=%s hist=%s racer=%s %s P=%d", eng, c.mode, c.np, c.nl, c.read, strings.Join(c.hist, "+"), c.racer, c.stop, c.p)
 }
 
 var families = map[string]string{
@@ -806,12 +806,13 @@ type hcfg struct {
 }
 
 func (c hcfg) name() string {
-	s := fmt.Sprintf("http %s exec=%s io=%s listen=%v hist=%s racer=%s %s P=%d", c.mode, c.exec, c.iomod, c.listen, strings.Join(c.hist, "+"), c.racer, c.stop, c.p)
+	eng := "http"
+	if c.noc {
+		eng = "http/nocache"
+	}
+	s := fmt.Sprintf("%s %s exec=%s io=%s listen=%v hist=%s racer=%s %s P=%d", eng, c.mode, c.exec, c.iomod, c.listen, strings.Join(c.hist, "+"), c.racer, c.stop, c.p)
 	if c.client {
 		s += " clientpool"
-	}
-	if c.noc {
-		s += " nocache"
 	}
 	return s
 }
